@@ -537,6 +537,11 @@ static Outcome run_variant(const Case &c) {
   int64_t bodylen = std::max<int64_t>(1, std::min<int64_t>(a[5], 102400));
   uint64_t seed = (uint64_t)a[6];
   int64_t nullbodylen = std::max<int64_t>(0, std::min<int64_t>(a[7], 1 << 20));
+  for (auto &op : c)
+    if (op.k == "pre" && !op.a.empty()) {
+      shim_prior_use((int)(((op.a[0] % 6) + 6) % 6));
+      o.cls("the process used hexify/unhexify/SHA-256 for something else first");
+    }
   // soundness: 0 <= t, every value the clock returns is formattable as a 4-digit year and is not (time_t)-1
   if (t0 < 0) t0 = 0;
   if (step < 0) step = 0;
@@ -801,6 +806,7 @@ int main(int argc, char **argv) {
              bool has_tf = false;
              for (auto &op : c) has_tf = has_tf || op.k == "tf";
              if (!has_tf && *range<int>(0, 1)) c.push_back(Op("tf", {0}));
+             if (*range<int>(0, 1)) c.push_back(Op("pre", {*range<int>(1, 5)}));  // the signing call is not the process's first use of the helper modules
              return c;
            });
          },
